@@ -16,6 +16,9 @@ THEOREMS = {
     "C14_author_link_to_page_ex": "example",
     "C14_author_link_to_asset": "full",
     "C14_demo_no_dead_links": "example",
+    "C14_nav_targets_exist": "full",
+    "C14_reachable": "full",
+    "C14_reachable_ex": "example",
 }
 TRUSTED = [
     "Coq 8.16.1 kernel (coqc; vm_compute for the correspondence and the concrete examples only)",
